@@ -141,7 +141,7 @@ static void vf_guar(void* p, int64_t o, int64_t n) {
     G.decs++; G.dec_old = (int)o; G.mine = 0; if (o == 1) G.elected = 1;
     G.p = s1.g;
     /* not elected: the other party completes the consumer at any time from now on */
-    if (o != 1 && G.started) vf_die();
+    if (o != 1 && G.started) { vf_die(); G.s_ref = (int8_t)n; }     /* (the RMW macro stores n after this hook) */
   }
 }
 
@@ -246,7 +246,7 @@ static _Bool EV_consumer_stop_possible(struct next_op* self) {
 #define OBJS_OK (NOP.stream_ == &CS && NOP.receiver_.op_ == &NOP && COP.stream_ == &CS && NW.receiver_ == &NOP.receiver_ && NW.stream_ == &CS && CW.receiver_ == &COP.receiver_ && CW.stream_ == &CS && CANCEL.op_ == &NOP)
 #define ZERO_SLOT_EVENTS (G.acts[0] == 0 && G.acts[1] == 0 && G.deacts[0] == 0 && G.deacts[1] == 0 && G.starts[0] == 0 && G.starts[1] == 0)
 #define FRESH (ZERO_SLOT_EVENTS && G.incs == 0 && G.decs == 0 && !G.elected && G.completed == 0 && G.rcv_calls == 0 && G.throws == 0 && !G.copy_threw && !G.dead \
-   && !G.wrapper_dead && G.sn_calls == 0 && G.sc_calls == 0 && G.stop_inner == 0 && !G.asked_stop_possible)
+   && !G.wrapper_dead && G.sn_calls == 0 && G.sc_calls == 0 && G.stop_inner == 0)
 /* a party that owns one unit of refCount_ and is about to release it */
 #define REL_PROTO (INV_NOW && !G.p.e && G.mine == 1 && G.decs == 0 && !G.elected && G.completed == 0 && !G.dead && (G.started || G.p.ki) \
    && ((G.role == ROLE_INNER && G.p.ki && G.started) || (G.role == ROLE_CB && G.p.a && G.p.f && G.stop_inner == 1)))
@@ -390,7 +390,7 @@ __CPROVER_ensures(ZERO_SLOT_EVENTS && G.slot[0] == LS_NONE && G.slot[1] == LS_NO
 
 /* ---- consumer-side operations ---- */
 void next_op_start(struct next_op* self)
-__CPROVER_requires(self == &NOP && CS_PRE && !G.started && INV_NOW && !G.p.e && G.p.ki && G.mine == 1 && G.role == ROLE_INNER)
+__CPROVER_requires(self == &NOP && CS_PRE && !G.started && !G.asked_stop_possible && INV_NOW && !G.p.e && G.p.ki && G.mine == 1 && G.role == ROLE_INNER)
 __CPROVER_assigns(A_ALL)
 __CPROVER_ensures(G.started && G.sn_calls == 1 && G.sc_calls == 0 && G.sn_strm == (void*)&CS && G.sn_rcv == (void*)&NOP.receiver_)     /* next() is forwarded to the concrete stream exactly once */
 __CPROVER_ensures(G.asked_stop_possible && G.sn_tok == (G.stop_possible ? TOK_SOURCE : TOK_NEVER))      /* C13: a stop request of the consumer can reach the inner stream */
